@@ -5,6 +5,7 @@
    generated from the source (C13_gen.v). *)
 From Coq Require Import ZArith List Bool QArith Qround Qabs Qminmax Reals.
 From Flocq Require Import Raux Generic_fmt.
+From P Require Export C13_num.
 From P Require Import C13_gen.
 Import ListNotations.
 
@@ -39,34 +40,6 @@ Definition kron {A} (mul : A -> A -> A) (a b : list A) : list A :=
   flat_map (fun x => map (fun y => mul x y) b) a.
 Definition tensor_weights3 {A} (mul : A -> A -> A) (wx wy wz : list A) : list A := kron mul (kron mul wx wy) wz.
 Definition tensor_weights2 {A} (mul : A -> A -> A) (wx wy : list A) : list A := kron mul wx wy.
-
-(* ------------------------------------------------------------------ numbers *)
-Record NumOps (T : Type) := {
-  nzero : T; none : T; nadd : T -> T -> T; nsub : T -> T -> T; nmul : T -> T -> T; ndiv : T -> T -> T;
-  nabs : T -> T; nofZ : Z -> T; nmax : T -> T -> T; nmin : T -> T -> T;
-  nceil : T -> Z;     (* np.ceil *)
-  nrint : T -> Z      (* np.rint: nearest integer, ties to even *)
-}.
-Arguments nzero {T}. Arguments none {T}. Arguments nadd {T}. Arguments nsub {T}. Arguments nmul {T}.
-Arguments ndiv {T}. Arguments nabs {T}. Arguments nofZ {T}. Arguments nmax {T}. Arguments nmin {T}.
-Arguments nceil {T}. Arguments nrint {T}.
-
-Definition ROps : NumOps R :=
-  {| nzero := 0%R; none := 1%R; nadd := Rplus; nsub := Rminus; nmul := Rmult; ndiv := Rdiv; nabs := Rabs;
-     nofZ := IZR; nmax := Rmax; nmin := Rmin; nceil := Zceil;
-     nrint := Znearest (fun x => negb (Z.even x)) |}.
-
-Definition Qrint (q : Q) : Z :=
-  let f := Qfloor q in
-  match Qcompare (q - inject_Z f) (1 # 2) with
-  | Lt => f
-  | Gt => (f + 1)%Z
-  | Eq => if Z.even f then f else (f + 1)%Z
-  end.
-Definition QOps : NumOps Q :=
-  {| nzero := 0%Q; none := 1%Q; nadd := fun a b => Qred (Qplus a b); nsub := fun a b => Qred (Qminus a b);
-     nmul := fun a b => Qred (Qmult a b); ndiv := fun a b => Qred (Qdiv a b); nabs := Qabs;
-     nofZ := inject_Z; nmax := Qmax; nmin := Qmin; nceil := Qceiling; nrint := Qrint |}.
 
 Section Num.
   Context {T : Type} (o : NumOps T).
@@ -119,31 +92,32 @@ Section Num.
 
   (* -------------------------------------------------------------- UniformGrid.from_molecule, rotate=False
      one Cartesian direction at a time (axes = diag(spacing)):
-       com    = dot(atcorenums, x) / sum(atcorenums)
-       shape  = ceil((max x - min x + 2 extension) / spacing)
-       origin = com - (0.5 * shape) * spacing                                                              *)
+       com    = dot(atcorenums, x) / sum(atcorenums)           (hand model: com_axis)
+       shape, origin = generated from the source, as functions of com, max x, min x, spacing, extension    *)
   Definition lmax (l : list T) : T := match l with [] => nzero o | x :: r => fold_right (nmax o) x r end.
   Definition lmin (l : list T) : T := match l with [] => nzero o | x :: r => fold_right (nmin o) x r end.
   Definition com_axis (zs xs : list T) : T := ndot zs xs /! nsum zs.
-  Definition shape_axis (xs : list T) (spacing ext : T) : Z :=
-    nceil o (((lmax xs -! lmin xs) +! (zz 2 *! ext)) /! spacing).
+  (* shape and origin of the box: GENERATED from the source (C13_gen.v: shape_axis_gen, origin_axis_gen) *)
+  Definition shape_axis (zs xs : list T) (spacing ext : T) : Z :=
+    shape_axis_gen o (com_axis zs xs) (lmax xs) (lmin xs) spacing ext.
   Definition origin_axis (zs xs : list T) (spacing ext : T) : T :=
-    com_axis zs xs -! ((none o /! zz 2) *! zz (shape_axis xs spacing ext)) *! spacing.
+    origin_axis_gen o (com_axis zs xs) (lmax xs) (lmin xs) spacing ext.
   (* distance from a nucleus at x to the first / last plane of grid points in this direction *)
   Definition margin_lo (zs xs : list T) (spacing ext x : T) : T := x -! origin_axis zs xs spacing ext.
   Definition margin_hi (zs xs : list T) (spacing ext x : T) : T :=
-    (origin_axis zs xs spacing ext +! zz (shape_axis xs spacing ext - 1) *! spacing) -! x.
+    (origin_axis zs xs spacing ext +! zz (shape_axis zs xs spacing ext - 1) *! spacing) -! x.
 
   (* -------------------------------------------------------------- UniformGrid.closest_point(which="closest")
-     only for a diagonal axes matrix (otherwise ValueError); step = norm of the axis row = |a_cc|           *)
-  Definition closest_coord (p orig acc : T) : Z := nrint o ((p -! orig) /! nabs o acc).
+     only for a diagonal axes matrix (otherwise ValueError); the integer coordinate of one direction is GENERATED
+     from the source (C13_gen.v: closest_coord_gen p orig d n)                                               *)
   Definition closest3 (orig : vec3) (d0 d1 d2 : T) (n0 n1 n2 : Z) (p : vec3) : Z * Z * Z * Z :=
     let '(o0, o1, o2) := orig in let '(p0, p1, p2) := p in
-    let c0 := closest_coord p0 o0 d0 in let c1 := closest_coord p1 o1 d1 in let c2 := closest_coord p2 o2 d2 in
+    let c0 := closest_coord_gen o p0 o0 d0 n0 in let c1 := closest_coord_gen o p1 o1 d1 n1 in
+    let c2 := closest_coord_gen o p2 o2 d2 n2 in
     (c0, c1, c2, coordinates_to_index3 n0 n1 n2 c0 c1 c2).
   Definition closest2 (orig : vec2) (d0 d1 : T) (n0 n1 : Z) (p : vec2) : Z * Z * Z :=
     let '(o0, o1) := orig in let '(p0, p1) := p in
-    let c0 := closest_coord p0 o0 d0 in let c1 := closest_coord p1 o1 d1 in
+    let c0 := closest_coord_gen o p0 o0 d0 n0 in let c1 := closest_coord_gen o p1 o1 d1 n1 in
     (c0, c1, coordinates_to_index2 n0 n1 c0 c1).
 End Num.
 
@@ -175,15 +149,21 @@ Definition fourier2_dir (n : Z) (i : Z) : R :=
 Definition alt_volume (vol : R) (shape : list Z) : R :=
   vol * fold_right (fun n acc => ((IZR n - 1) / IZR n) * acc) 1 shape.
 (* 3-D: einsum("ijk,i,j,k->ijk", ones, wx, wy, wz) * alt_volume.
-   2-D: the code indexes shape[2] -> IndexError, modelled as None. *)
+   2-D: either einsum("ij,i,j->ij", ones, wx, wy) * alt_volume, or - when the code reads shape[2] - IndexError
+   (modelled as None); which one applies is the flag fourier2_2d_ok of C13_gen.v, decided on every run by a directed
+   witness (constructing the 4x4 grid) and validated by the correspondence on all other 2-D shapes. *)
 Definition fourier2_weights3 (vol : R) (n0 n1 n2 : Z) : list R :=
   lex3 (fun i j k => 1 * fourier2_dir n0 (i + 1) * fourier2_dir n1 (j + 1) * fourier2_dir n2 (k + 1)
                      * alt_volume vol [n0; n1; n2])
        (Z.to_nat n0) (Z.to_nat n1) (Z.to_nat n2).
+Definition fourier2_weights2 (vol : R) (n0 n1 : Z) : list R :=
+  lex2 (fun i j => 1 * fourier2_dir n0 (i + 1) * fourier2_dir n1 (j + 1) * alt_volume vol [n0; n1])
+       (Z.to_nat n0) (Z.to_nat n1).
 Definition fourier2_weights (vol : R) (shape : list Z) : option (list R) :=
   match shape with
   | [n0; n1; n2] => Some (fourier2_weights3 vol n0 n1 n2)
-  | _ => None                       (* shape[2] does not exist (2-D) *)
+  | [n0; n1] => if fourier2_2d_ok then Some (fourier2_weights2 vol n0 n1) else None
+  | _ => None
   end.
 
 (* ------------------------------------------------------------------ cube file data block: 6 values per line *)
